@@ -121,6 +121,11 @@ def ninja_quote(text: str, is_build_line: bool = False) -> str:
 Please report this error with a test case to the Meson bug tracker.'''
         raise MesonException(errmsg)
 
+    if is_build_line and '|' in text:
+        # Ninja ends a path at '|' (implicit / order-only separator) and has no escape for it.
+        raise MesonException(f'Ninja cannot represent the path {text!r}: it contains "|". '
+                             'Please rename the target, output or file.')
+
     quote_re = NINJA_QUOTE_BUILD_PAT if is_build_line else NINJA_QUOTE_VAR_PAT
     if ' ' in text or '$' in text or (is_build_line and ':' in text):
         return quote_re.sub(r'$\g<0>', text)
